@@ -347,9 +347,23 @@ pub fn run_lazy(kind: usize, h: &[Ev], times: &[i64]) -> Obs {
     s.get()
 }
 
+thread_local! {
+    /// clock pattern of `check_history`: 0 = +1 s per event (default); the filters (EWMA, moving
+    /// average) accept non-decreasing, possibly repeated timestamps, for them also 1 = every
+    /// timestamp used twice, 2 = the clock stands still, 3 = every timestamp used three times
+    pub static CLOCK: std::cell::Cell<u8> = std::cell::Cell::new(0);
+}
+pub const CLOCK_NAMES: [&str; 4] = ["+1 s per event", "every timestamp used twice", "clock standing still", "every timestamp used three times (first one twice)"];
 pub fn check_history(kind: usize, h: &[Ev], e: &mut Eng) -> u64 {
     let n = h.len();
-    let times: Vec<i64> = (0..n).map(|k| (k as i64 + 1) * S).collect();
+    let times: Vec<i64> = (0..n)
+        .map(|k| match CLOCK.with(|c| c.get()) {
+            0 => (k as i64 + 1) * S,
+            1 => (k as i64 / 2 + 1) * S,
+            2 => S,
+            _ => ((k as i64 + 1) / 3 + 1) * S,
+        })
+        .collect();
     let name = KIND_NAMES[kind];
     let (rst_n, rst_e, ign_n, memless) = policy(kind);
     let mut applied = 0u64;
@@ -586,6 +600,29 @@ pub fn run(ctx: &Ctx) -> Vec<Eng> {
         });
     }
     engines.push(e1);
+    let rdepth = if ctx.thorough { 8 } else { 6 };
+    let mut e1r = Eng::new(
+        "c05-repeated-timestamps",
+        "the filters, which accept non-decreasing and possibly repeated timestamps (EWMA f32/Quantity, moving average f32/Quantity, short and long window): all histories of exactly `depth` events over the same five symbols under three more clocks - every timestamp used twice, the clock standing still, every timestamp used three times - so that an error, an absent sample or a reset is followed by a sample that carries the timestamp of the sample before it; same oracles as c05-seqs (no stale error, reset == fresh stream on the suffix, deletion of ignored absent events, purity)",
+        &format!("depth {} => 5^{} histories x 6 streams x 3 clocks", rdepth, rdepth),
+    );
+    for kind in [4usize, 5, 6, 7, 15, 16] {
+        for clock in 1..=3u8 {
+            par_seqs(&mut e1r, 5, rdepth, budget, |seq, e| {
+                let h: Vec<Ev> = seq.iter().map(|&s| SYMS[s]).collect();
+                CLOCK.with(|c| c.set(clock));
+                let before = e.viol.len();
+                let a = check_history(kind, &h, e);
+                CLOCK.with(|c| c.set(0));
+                if e.viol.len() > before {
+                    e.notes.push(format!("a violation first appeared with the clock pattern: {}", CLOCK_NAMES[clock as usize]));
+                }
+                e.sample(|| format!("{} ({}): [{}]", KIND_NAMES[kind], CLOCK_NAMES[clock as usize], hist_name(&h)));
+                a
+            });
+        }
+    }
+    engines.push(e1r);
 
     let (hz, k) = if ctx.thorough { (48, 3) } else { (40, 2) };
     let mut e2 = Eng::new(
